@@ -24,6 +24,7 @@ var registry = map[string]checkFn{
 	"C06": runC06,
 	"C08": runC08,
 	"C09": runC09,
+	"C11": runC11,
 	"C16": runC16,
 	"C19": runC19,
 }
